@@ -39,19 +39,30 @@ import (
 
 const pipeWait = 2 * time.Second // bound of every single wait in these families
 
-// pipeBudget bounds what a broken tree can cost: after a few slow cases the family stops.
+// pipeBudget bounds what a broken tree can cost: the first blocked write is given 3 s, later ones 300 ms,
+// and after a few of them the remaining cases of the family are skipped (the workers share the counter).
 type pipeBudget struct {
 	slow     int
 	unsynced int
-	blocked  int
 	aborted  string
+	blocked  atomic.Int64
 }
 
+const maxBlocked = 4
+
 func (b *pipeBudget) writeBound() time.Duration {
-	if b != nil && b.blocked > 0 {
+	if b != nil && b.blocked.Load() > 0 {
 		return 300 * time.Millisecond
 	}
 	return 3 * time.Second
+}
+
+func (b *pipeBudget) exhausted() bool { return b != nil && b.blocked.Load() > maxBlocked }
+
+func (b *pipeBudget) noteBlocked() {
+	if b != nil {
+		b.blocked.Add(1)
+	}
 }
 
 func waitCount(ctr *atomic.Int64, want int64, d time.Duration) bool {
@@ -94,6 +105,7 @@ type vrunCase struct {
 }
 
 type vrunObs struct {
+	Skipped    bool     // not run: the family's budget for blocked writes is used up
 	Outs       []string // per "d" move: value | none | timeout | closed
 	Drain      []string
 	WriteBlock string
@@ -209,6 +221,10 @@ func listOf(s string) []string {
 // runCode: model = the driver's answer ("" in replay mode: time-based scheduling).
 func (c vrunCase) runCode(model string, b *pipeBudget) vrunObs {
 	var obs vrunObs
+	if b.exhausted() {
+		obs.Skipped = true
+		return obs
+	}
 	var calls atomic.Int64
 	initial := "00"
 	if c.Seed != "-" {
@@ -293,6 +309,7 @@ func (c vrunCase) runCode(model string, b *pipeBudget) vrunObs {
 		t0 := time.Now()
 		ok, err := timedCall(b.writeBound(), func() error { _, err := v.Set(durOf(tok)); return err })
 		if !ok {
+			b.noteBlocked()
 			obs.WriteBlock = mv
 			return obs
 		}
@@ -483,10 +500,13 @@ chunks:
 			hi = len(cases)
 		}
 		obss := make([]vrunObs, hi-lo)
-		bb := b // workers read the budget, the recording loop below updates it
-		parallelDo(hi-lo, func(j int) { obss[j] = cases[lo+j].runCode(ans[lo+j], &bb) })
+		parallelDo(hi-lo, func(j int) { obss[j] = cases[lo+j].runCode(ans[lo+j], &b) })
 		for j, obs := range obss {
 			i, c := lo+j, cases[lo+j]
+			if obs.Skipped {
+				tie.Count("skipped after blocked writes")
+				continue
+			}
 			if obs.MaxWrite > maxW {
 				maxW = obs.MaxWrite
 			}
@@ -500,7 +520,6 @@ chunks:
 			code := obs.answer()
 			if obs.WriteBlock != "" {
 				code += "!blocked:" + obs.WriteBlock
-				b.blocked++
 			}
 			if obs.WriteErr != "" {
 				code += "!error"
@@ -520,7 +539,7 @@ chunks:
 				b.aborted = c.key() + " -> " + code
 			}
 		}
-		if b.slow > 6 {
+		if b.slow > 6 || b.exhausted() {
 			tie.Fail(fmt.Errorf("aborted after %d cases in which the real pipeline did not respond within its bound (last: %s)", b.slow, b.aborted))
 			break chunks
 		}
@@ -561,6 +580,7 @@ type heldEvent struct {
 }
 
 type crunObs struct {
+	Skipped    bool       // not run: the family's budget for blocked writes is used up
 	Outs       []string   // per "d<k>" move
 	Drains     [][]string // per subscriber
 	Seeds      [][]string // per subscriber: what it received before the moves
@@ -688,6 +708,10 @@ func (s *crunSub) recv(wait time.Duration) (string, *resource.CollectionChange) 
 
 func (c crunCase) runCode(model string, b *pipeBudget) crunObs {
 	var obs crunObs
+	if b.exhausted() {
+		obs.Skipped = true
+		return obs
+	}
 	evs, perMove, _, _ := c.events()
 	obs.Events = evs
 	var copts []resource.Option
@@ -818,6 +842,7 @@ func (c crunCase) runCode(model string, b *pipeBudget) crunObs {
 			return err
 		})
 		if !ok {
+			b.noteBlocked()
 			obs.WriteBlock = mv
 			return obs
 		}
@@ -1155,10 +1180,13 @@ chunks:
 			hi = len(cases)
 		}
 		obss := make([]crunObs, hi-lo)
-		bb := b
-		parallelDo(hi-lo, func(j int) { obss[j] = cases[lo+j].runCode(ans[lo+j], &bb) })
+		parallelDo(hi-lo, func(j int) { obss[j] = cases[lo+j].runCode(ans[lo+j], &b) })
 		for j, obs := range obss {
 			i, c := lo+j, cases[lo+j]
+			if obs.Skipped {
+				tie.Count("skipped after blocked writes")
+				continue
+			}
 			if obs.MaxWrite > maxW {
 				maxW = obs.MaxWrite
 			}
@@ -1166,7 +1194,6 @@ chunks:
 			code := obs.answer()
 			if obs.WriteBlock != "" {
 				code += "!blocked:" + obs.WriteBlock
-				b.blocked++
 			}
 			if obs.WriteErr != "" {
 				code += "!error"
@@ -1183,7 +1210,7 @@ chunks:
 				b.aborted = c.key() + " -> " + code
 			}
 		}
-		if b.slow > 6 {
+		if b.slow > 6 || b.exhausted() {
 			tie.Fail(fmt.Errorf("aborted after %d cases in which the real pipelines did not respond within their bound (last: %s)", b.slow, b.aborted))
 			break chunks
 		}
